@@ -475,7 +475,11 @@ func c08PathMapping(p *Prog, r *Report) {
 	// strings.ReplaceAll over its parameter
 	var pm *ssa.Function
 	mapped := func(arg string) string { return "" }
-	for _, g := range p.FuncsIn(coqPkg) {
+	var cands []*ssa.Function
+	if itp := p.Func(coqPkg, "ImportToPath"); itp != nil {
+		cands = p.region([]*ssa.Function{itp}) // the mapping is the one the output path is computed with
+	}
+	for _, g := range cands {
 		if g.Parent() != nil || g.Signature.Recv() != nil || g.Signature.Params().Len() != 1 || g.Signature.Results().Len() != 1 {
 			continue
 		}
